@@ -62,7 +62,7 @@ package kubeeventsmanager
 // same checksum; Deleted removes the entry and fires iff listed; other cache entries are untouched;
 // a stopped informer or a failing filter changes nothing.
 //@ func (*resourceInformer).handleWatchEvent
-//@   prop C08, C01, C02
+//@   prop C08, C01, C02, C09
 //@   opt old=cs
 //@   requires ei.Monitor != nil && ei.cachedObjects != nil && ei.cachedObjectsInfo != nil && ei.cachedObjectsIncrement != nil
 //@   requires [assumed:informer-delivers-unstructured-objects] IsObj(object) || (dyntype(object, cache.DeletedFinalStateUnknown) && IsObj(object.(cache.DeletedFinalStateUnknown).Obj))
@@ -89,6 +89,14 @@ package kubeeventsmanager
 //@   ensures [cache-follows @C08]   nFired == 1 && eventType != kemtypes.WatchEventDeleted ==> has(ei.cachedObjects, rid) && ei.cachedObjects[rid].Metadata.ResourceId == rid
 //@   ensures [delivered-or-buffered @C08] nPut > old(nPut) ==> old(ei.eventCbEnabled) && lastPut.Type == kemtypes.TypeEvent && len(lastPut.WatchEvents) == 1 && lastPut.WatchEvents[0] == eventType
 //@        && len(lastPut.Objects) == 1 && lastPut.MonitorId == ei.Monitor.Metadata.MonitorId
+//@   ensures [full-object-exactly-when-kept/delivered @C09] nPut > old(nPut) ==> (ei.Monitor.KeepFullObjectsInMemory ==> lastPut.Objects[0].Object == o && !lastPut.Objects[0].Metadata.RemoveObject)
+//@        && (!ei.Monitor.KeepFullObjectsInMemory ==> lastPut.Objects[0].Object == nil && lastPut.Objects[0].Metadata.RemoveObject)
+//@   ensures [full-object-exactly-when-kept/buffered @C09] len(ei.eventBuf) > old(len(ei.eventBuf)) ==> len(ei.eventBuf[len(ei.eventBuf)-1].Objects) == 1
+//@        && (ei.Monitor.KeepFullObjectsInMemory ==> ei.eventBuf[len(ei.eventBuf)-1].Objects[0].Object == o && !ei.eventBuf[len(ei.eventBuf)-1].Objects[0].Metadata.RemoveObject)
+//@        && (!ei.Monitor.KeepFullObjectsInMemory ==> ei.eventBuf[len(ei.eventBuf)-1].Objects[0].Object == nil && ei.eventBuf[len(ei.eventBuf)-1].Objects[0].Metadata.RemoveObject)
+//@   ensures [full-object-exactly-when-kept/cached @C09,C02] (eventType == kemtypes.WatchEventAdded || eventType == kemtypes.WatchEventModified) && !old(ei.stopped) && lastFilterErr == nil ==>
+//@        (ei.Monitor.KeepFullObjectsInMemory ==> ei.cachedObjects[rid].Object == o && !ei.cachedObjects[rid].Metadata.RemoveObject)
+//@        && (!ei.Monitor.KeepFullObjectsInMemory ==> ei.cachedObjects[rid].Object == nil && ei.cachedObjects[rid].Metadata.RemoveObject)
 //@   ensures [handed-over-at-most-once @C01] (nPut - old(nPut)) + (len(ei.eventBuf) - old(len(ei.eventBuf))) == 0 || (nPut - old(nPut)) + (len(ei.eventBuf) - old(len(ei.eventBuf))) == 1
 //@   ensures [direct-only-when-enabled @C01] nPut > old(nPut) ==> old(ei.eventCbEnabled) && len(ei.eventBuf) == old(len(ei.eventBuf))
 //@   ensures [buffered-only-when-disabled @C01] len(ei.eventBuf) > old(len(ei.eventBuf)) ==> !old(ei.eventCbEnabled) && nPut == old(nPut)
